@@ -300,7 +300,9 @@ fn run(ctx: &Ctx) {
         }
         vary_vm(&mut case, i / 3);
         let m = model_run(&case, 0x1000, Quirks::default(), 200_000);
-        if !matches!(m.out, MOut::Ret(_) | MOut::Err(_)) {
+        // (on the fixed-metadata VM a stack overrun may or may not land in the VM's own heap
+        // buffer, depending on the allocator: only runs that return a value are compared)
+        if !matches!(m.out, MOut::Ret(_) | MOut::Err(_)) || (matches!(case.vm, VmKind::Fixed { .. }) && !matches!(m.out, MOut::Ret(_))) {
             // e.g. frames made to overlap by the calculator: the result may depend on addresses,
             // which differ between the two processes
             *ctx.stats().discarded.entry("X-calls:model-undefined".into()).or_insert(0) += 1;
